@@ -62,7 +62,10 @@ def main():
         except core.CaseAbort:
             pass
 
-    argv = [sys.argv[0], "-runs=%d" % a.runs, "-seed=%d" % a.seed, "-max_len=%d" % a.max_len, "-len_control=0", "-print_final_stats=0", "-verbosity=0", corpus]
+    argv = [sys.argv[0], "-runs=%d" % a.runs, "-seed=%d" % a.seed, "-max_len=%d" % a.max_len, "-len_control=0", "-print_final_stats=0", "-verbosity=0",
+            # torch + instrumented pypose sit near libFuzzer's default 2 GB RSS limit: reaching it would abort the campaign and drop an
+            # oom-* artifact into the working directory.  No limit (the runner's watchdog bounds the campaign), artifacts beside the corpus.
+            "-rss_limit_mb=0", "-malloc_limit_mb=0", "-artifact_prefix=%s/" % corpus, corpus]
 
     def report():
         out = st_.dump()
